@@ -1,0 +1,38 @@
+//go:build verif
+
+package vhost
+
+import "sort"
+
+// Accessors for the C10 (release on every termination path) correspondence harness.
+// Compiled only with -tags verif.
+
+// VerifC10Routes returns every route of the table as "domain|location|httpUser", sorted.
+func (r *Routers) VerifC10Routes() []string {
+	r.mutex.RLock()
+	defer r.mutex.RUnlock()
+	out := []string{}
+	for _, byUser := range r.indexByDomain {
+		for _, vrs := range byUser {
+			for _, vr := range vrs {
+				out = append(out, vr.domain+"|"+vr.location+"|"+vr.httpUser)
+			}
+		}
+	}
+	sort.Strings(out)
+	return out
+}
+
+// VerifC10DomainKeys returns the number of domain keys of the table (keys whose route lists are
+// empty included: Del keeps them).
+func (r *Routers) VerifC10DomainKeys() int {
+	r.mutex.RLock()
+	defer r.mutex.RUnlock()
+	return len(r.indexByDomain)
+}
+
+// VerifC10Routers returns the route table of a muxer (https, tcpmux).
+func (v *Muxer) VerifC10Routers() *Routers { return v.registryRouter }
+
+// VerifC10Routers returns the route table of the http reverse proxy.
+func (rp *HTTPReverseProxy) VerifC10Routers() *Routers { return rp.vhostRouter }
